@@ -6,6 +6,8 @@ def explore(run, lean):
     quick = run.tier == "quick"
     text_corr.explore_json(run, 400 if quick else 8000)
     run.extra["rule"] = ("random nested JSON payloads (None, booleans, big ints, -0.0, tiny/huge floats, unicode and escaped strings, empty containers, nested lists/dicts) with known, new and awkward signal names; name, payload (type- and sign-exact) and number compared after loads(dumps(e))")
+    ROUND6_RULE = '; payloads and names that are themselves data notation (JSON text, reprs, numbers, keywords, dates, doubly serialised)'
+    run.extra["rule"] += ROUND6_RULE
 
 
 def replay(case):
